@@ -55,6 +55,15 @@ Example C08_limit_is_sharp :
   decoder default_constraints (lit "[" ++ repeat 49%N (S (N.to_nat int_max_str_digits)) ++ lit "C]")%list false false = Err ValueError.
 Proof. vm_compute. reflexivity. Qed.
 
+
+(* both flags: whenever the (modernising) tokenizer raises nothing but DecoderError and yields symbols whose digit
+   fields int() can read (frags_ok: for compatible=False this is implied by symbols_short, see above), derivation,
+   ring pass and writer never raise anything but DecoderError *)
+Theorem C08_decoder_total_any_flag_partial : forall T s compat attribute,
+  (exists c, assoc (lit "?") T = Some c) -> frags_ok s compat ->
+  (exists out, decoder T s compat attribute = Ok out) \/ decoder T s compat attribute = Err DecoderError.
+Proof. exact decoder_total_ok_c. Qed.
+
 (* digits_ok is not a hidden assumption about "nice" strings: it holds of garbage too *)
 Example C08_digits_ok_example :
   digits_ok (lit "[C][=N+1][Branch1][junk][[Ring1].[13CH2-1]]][=C][Ring9][O").
@@ -76,3 +85,4 @@ Print Assumptions C08_decoder_total_partial.
 Print Assumptions C08_table_untouched.
 Print Assumptions C08_decoder_total_short_symbols.
 Print Assumptions C08_decoder_total_short_string.
+Print Assumptions C08_decoder_total_any_flag_partial.
